@@ -37,6 +37,8 @@ pub enum COp {
     ToDot,
     ToDotAttr(u8),
     Connect(Key, Key, EV, Via),
+    /// `count` edges from one node to the others (long adjacency lists)
+    ConnectBurst(Key, u8),
     Disconnect(Key, Key),
     Isolate(Key),
     Sizeof,
@@ -345,6 +347,12 @@ fn step<F: Flavour>(w: &mut World<F>, op: &COp, st: &mut Stats, counting: bool) 
                 return fail("handle.change-not-visible-through-other-handle", format!("connect through {:?} handle of {}: original handle lists {:?}", via, u, after));
             }
         }
+        COp::ConnectBurst(u, count) => {
+            for i in 0..count as usize {
+                F::connect(&w.prim[u as usize], &w.prim[(u as usize + 1 + i) % n], (i % 3) as EV);
+            }
+            cls(st, "op.connect-burst");
+        }
         COp::Disconnect(u, v) => {
             let _ = F::disconnect(&w.prim[u as usize], v);
         }
@@ -442,6 +450,7 @@ fn op_strategy(n: usize) -> impl Strategy<Value = COp> {
         1 => Just(COp::ToDot),
         2 => (0u8..12).prop_map(COp::ToDotAttr),
         6 => (k(), k(), 0u32..3, prop_oneof![Just(Via::Direct), Just(Via::Get), Just(Via::Index), Just(Via::Iter), Just(Via::ToVec)]).prop_map(|(u, v, e, via)| COp::Connect(u, v, e, via)),
+        1 => (k(), 5u8..40).prop_map(|(u, c)| COp::ConnectBurst(u, c)),
         2 => (k(), k()).prop_map(|(u, v)| COp::Disconnect(u, v)),
         1 => k().prop_map(COp::Isolate),
         1 => Just(COp::Sizeof),
@@ -550,7 +559,7 @@ pub fn replay(v: &Value, st: &mut Stats) -> Result<(), String> {
     let c: CCase = serde_json::from_value(json!({"n": v["n"], "ops": v["ops"], "use_default": v["use_default"].as_bool().unwrap_or(false)})).map_err(|e| e.to_string())?;
     for op in &c.ops {
         let ok = match *op {
-            COp::InsertPrimary(k) | COp::InsertImpostor(k) | COp::Index(k) | COp::Isolate(k) => (k as usize) < c.n,
+            COp::InsertPrimary(k) | COp::InsertImpostor(k) | COp::Index(k) | COp::Isolate(k) | COp::ConnectBurst(k, _) => (k as usize) < c.n,
             COp::Connect(u, v, _, _) | COp::Disconnect(u, v) => (u as usize) < c.n && (v as usize) < c.n,
             _ => true,
         };
